@@ -367,6 +367,10 @@ func (x *Exec) binop(a *activation, b *ssa.BasicBlock, i int, in *ssa.BinOp, fr 
 			fr.vals[in] = AV{k: 'B', tri: 3}
 		}
 		return false
+	case l.k == 'A' && isNilConst(in.Y) && (in.Op == token.EQL || in.Op == token.NEQ):
+		// the address of a field or element is never nil
+		fr.vals[in] = res(false)
+		return false
 	case (l.k == 'P' || l.k == 'L' || l.k == 'M') && (in.Op == token.EQL || in.Op == token.NEQ):
 		// comparison with nil
 		t := l.tri
